@@ -18,7 +18,7 @@ ELS = {1: "deuterium", 2: "helium", 5: "carbon", 6: "carbon", 8: "neon", 9: "neo
 _SCENES = {}
 
 
-def scene(mix, shape, D, step_cm=50, flow=(0, 0, 0), prior="none"):
+def scene(mix, shape, D, step_cm=50, flow=(0, 0, 0), prior="none", expect=None):
     from raysect.core import Vector3D, translate, rotate_y, rotate_z
     from raysect.optical import World
     from cherab.core import Plasma, Species, Beam
@@ -37,14 +37,23 @@ def scene(mix, shape, D, step_cm=50, flow=(0, 0, 0), prior="none"):
         def __init__(self, name): self.name = name
         def evaluate(self, e, n, t):
             calls.append((self.name, float(e), float(n), float(t)))
-            a, c, _ = coeff[self.name]
-            return (a + c * n / NU) * US * (e / ENERGY)        # proportional to the interaction energy
+            a, c, zq = coeff[self.name]
+            val = (a + c * n / NU) * US * (e / ENERGY)        # proportional to the interaction energy
+            # the temperature argument does not enter the formula: asked at another temperature the rate answers differently
+            if expect is not None and not moved_phase[0] and abs(t - TI) > 1e-9 * TI:
+                val *= 2.3
+            return val
 
     class A(AtomicData):
         def beam_stopping_rate(self, b, p, q): return Stop((p.name, q))
 
+    moved_phase = [prior == "moved"]       # True while the beam still sits at its first placement
     world = World()
-    pl = Plasma(parent=world)
+    from raysect.core import rotate_x
+    # the plasma node itself sits displaced and rotated in the world when the beam is going to be moved (profiles are given in
+    # the plasma's own coordinates)
+    pxf = (translate(0.4, 0.1, -0.3) * rotate_x(25)) if prior == "moved" else None
+    pl = Plasma(parent=world) if pxf is None else Plasma(parent=world, transform=pxf)
     zero = ConstantVector3D(Vector3D(0, 0, 0))
     pl.b_field = zero
     pl.electron_distribution = Maxwellian(Constant3D(1e19), Constant3D(100.0), zero, 9.1093837015e-31)
@@ -58,7 +67,8 @@ def scene(mix, shape, D, step_cm=50, flow=(0, 0, 0), prior="none"):
         # the plasma has three times the densities beyond the plane one half metre to the side of the beam's final axis
         from raysect.core import Point3D
         from raysect.core.math.function.float.function3d.autowrap import PythonFunction3D
-        o, u = Point3D(0, 0, 0).transform(xf), Vector3D(1, 0, 0).transform(xf)
+        inv = pxf.inverse()
+        o, u = Point3D(0, 0, 0).transform(xf).transform(inv), Vector3D(1, 0, 0).transform(xf).transform(inv)      # in plasma coordinates
 
         def dens(n):
             return PythonFunction3D(lambda x, y, z: (3.0 if (x - o.x) * u.x + (y - o.y) * u.y + (z - o.z) * u.z > 0.5 else 1.0) * n * NU)
@@ -68,7 +78,8 @@ def scene(mix, shape, D, step_cm=50, flow=(0, 0, 0), prior="none"):
     pl.composition = [Species(getattr(E, ELS[zc]), zc, Maxwellian(dens(n), Constant3D(TI), vion, getattr(E, ELS[zc]).atomic_weight * 1.66053906660e-27))
                       for zc, n, a, c in mix]
     sg, tx, ty, L, clamp, cs = shape
-    beam = Beam(parent=world, transform=(translate(u.x, u.y, u.z) * xf) if moved else xf)
+    uw = Vector3D(1, 0, 0).transform(xf)
+    beam = Beam(parent=world, transform=(translate(uw.x, uw.y, uw.z) * xf) if moved else xf)
     beam.plasma = pl
     beam.atomic_data = A()
     beam.energy, beam.power, beam.element = ENERGY, POWER, E.deuterium
@@ -80,6 +91,7 @@ def scene(mix, shape, D, step_cm=50, flow=(0, 0, 0), prior="none"):
     if moved:
         beam.density(0.0, 0.0, 0.5 * L / D)          # evaluated where it was built ...
         beam.transform = xf                          # ... then moved to its final place
+        moved_phase[0] = False
         del calls[:]
     _SCENES[key] = (beam, calls)
     if len(_SCENES) > 40:
@@ -91,7 +103,7 @@ def replay(rec, ctx):
     from scipy import constants as K
     from cherab.core.atomic import deuterium
     D = rec["D"]
-    beam, calls = scene(rec["mix"], rec["shape"], D, rec["step_cm"], tuple(rec.get("flow", (0, 0, 0))), rec.get("prior", "none"))
+    beam, calls = scene(rec["mix"], rec["shape"], D, rec["step_cm"], tuple(rec.get("flow", (0, 0, 0))), rec.get("prior", "none"), expect=True)
     efac = rec["efac"][0] / rec["efac"][1] if "efac" in rec else 1.0
     x, y, z = rec["x"] / D, rec["y"] / D, rec["z"] / D
     viol = []
@@ -121,7 +133,16 @@ def replay(rec, ctx):
         if not core.close(got, want, rtol=rtol):
             # which ingredient is off: compare the on-axis flux with the unattenuated one
             bad("density-differs", f"{got!r} vs {want!r} (S = {rec['S']} units, attenuation exponent {s_phys * z / v:.6g})")
-    # (T) arguments of the stopping-rate evaluations
+    # (T) arguments of the stopping-rate evaluations: E and n_eq enter the mock rate's value (a mix-up shows in the density
+    # above), T makes it answer wrongly; the recorded calls name the reason, and are observations when the density is right
+    wrong_value = bool(viol)
+    strict_bad = bad
+
+    def bad(what, detail):      # noqa: F811
+        if wrong_value:
+            strict_bad(what, detail)
+        else:
+            viol.append({"observation": f"{tag}:{what}"})
     z2n = rec["z2n"]
     for name, e, n, t in calls[:200]:
         zi = name[1]
@@ -129,6 +150,7 @@ def replay(rec, ctx):
             bad("stopping-rate-evaluated-at-wrong-arguments", f"{name}: (E, n_eq, T) = ({e}, {n}, {t}) vs ({ENERGY * efac}, {z2n * NU / zi}, {TI})")
             break
     del calls[:]
+    bad = strict_bad
     # direction field
     d = beam.direction(x, y, z)
     if abs(math.sqrt(d.x ** 2 + d.y ** 2 + d.z ** 2) - 1.0) > 1e-12:
@@ -181,9 +203,14 @@ def run(v):
         raise core.MachineryError(f"vacuity: classes {classes}")
     cases.sort(key=lambda r: json.dumps([r["mix"], r["shape"], r.get("prior")]))
     out = core.fan_out("mbt.c04", "replay", cases, None, chunk=96)
+    obs = {}
     for r, vs in zip(cases, out):
         for x in vs:
-            v.violation(x["sig"], x["detail"], r)
+            if "observation" in x:
+                obs[x["observation"]] = obs.get(x["observation"], 0) + 1
+            else:
+                v.violation(x["sig"], x["detail"], r)
+    v.notes["not_asserted"] = obs
     for x in extra_checks(v):
         v.violation(x["sig"], x["detail"], None)
     v.add_cases(len(cases) + 2, keys=[json.dumps([r.get("prior"), r["mix"], r["shape"], r["x"], r["y"], r["z"], r["step_cm"], r["flow"]]) for r in cases])
